@@ -27,6 +27,7 @@ RULE = (
     ' Also: re-cascades after a leaf was removed / replaced by an older-dated file; one parent tile whose storing fails with ENOSPC (so'
     'urce-free failpoint in Image.save): the cascade must raise or the tree must be right.'
     " Round 8: foreign FITS leaves whose headers inherit a mosaic's DATAMIN/DATAMAX cards (incl. entirely undefined ones)."
+    ' Round 9: foreign single-precision FITS leaves stored as 16-bit integers with BSCALE / BZERO cards.'
 )
 ASSUMPTIONS = [
     "a fully transparent pixel is undefined: its hidden colour channels do not take part in the mean (undefined = 0,0,0,0)",
@@ -116,6 +117,16 @@ def write_leaves(base, fmt, mode, leaves, rng, R, writer, force_pattern=None, gr
                 fp = os.path.join(base, tilegen.tile_relpath(p, fmt))
                 _fits.setval(fp, "DATAMIN", value=-3.5)
                 _fits.setval(fp, "DATAMAX", value=812.25)
+            if fmt == "fits" and mode == "F32" and np.isfinite(arr).all() and float(arr.max()) > float(arr.min()) and R.random() < 0.6:
+                # a single-precision tile stored the compact way other tools use: 16-bit integers plus BSCALE / BZERO cards. Its
+                # pixel VALUES are what the cards say (astropy hands them back as float32, like its neighbours'); the reference
+                # reads them through astropy like everything else
+                from astropy.io import fits as _fits
+
+                fp = os.path.join(base, tilegen.tile_relpath(p, fmt))
+                hdu = _fits.PrimaryHDU(np.array(_fits.getdata(fp), dtype=np.float32))
+                hdu.scale("int16", "minmax")
+                hdu.writeto(fp, overwrite=True)
             if grey and fmt == "png":
                 # an 8-bit GREYSCALE png (PIL mode L), as other tools write for monochrome data: colour data like any other
                 from PIL import Image as PI
